@@ -32,6 +32,16 @@ impl<'a> Parser<'a> {
         while line_index < lines.len() {
             let ln = line_index + 1;
             if let Some(header) = parse_header(lines[line_index].content) {
+                let (Header::Knot { name, .. }
+                | Header::Function { name, .. }
+                | Header::Stitch { name, .. }) = &header;
+                if !is_identifier(name) {
+                    return Err(CompilerError::invalid_source(format!(
+                        "'{name}' is not a valid name for a knot, stitch or function"
+                    ))
+                    .with_line(ln));
+                }
+
                 match header {
                     Header::Knot {
                         name,
